@@ -185,6 +185,7 @@ func cmdCheck(args []string) int {
 	tier := fs.String("tier", "", "quick|thorough")
 	noEvidence := fs.Bool("no-evidence", false, "")
 	writeBaseline := fs.Bool("write-baseline", false, "record the set of discharged obligations")
+	forceReplay := fs.Bool("replay", false, "attempt replays even when -outdir is given (development)")
 	verbose := fs.Bool("v", false, "")
 	outdir := fs.String("outdir", "", "directory for query / replay files (default <verif>/out)")
 	fs.Parse(args)
@@ -213,7 +214,7 @@ func cmdCheck(args []string) int {
 		}
 	}
 	cc := &checkCtx{p: p, tier: *tier, verif: *verif, results: map[string]*unitResult{}, solverWins: map[string]int{}, outRoot: *outdir}
-	if *outdir != "" {
+	if *outdir != "" && !*forceReplay {
 		cc.noReplay = true // development runs against scratch copies
 	}
 	cc.raceTmo = 20 * time.Second
